@@ -40,21 +40,21 @@ type c11Obj struct {
 
 // c11Scn is one crash scenario: configuration, pre-state and the request that is killed.
 type c11Scn struct {
-	Op         string `json:"op"` // put | delete | copy | uploadpart | complete | deleteversion
-	NoOTmp     bool   `json:"no_otmp"`
-	Sidecar    bool   `json:"sidecar"`
-	Versioning string `json:"versioning"` // "" (no versioning dir) | "off" (dir configured, bucket unversioned) | "Enabled" | "Suspended"
-	Key        string `json:"key"`
-	Pre        string `json:"pre"`    // absent | present | present2 (two generations: an archived version exists) | marker (delete marker is current)
-	Old        c11Obj `json:"old"`    // object at Key in the pre-state (Pre != absent)
-	New        c11Obj `json:"new"`    // put: the uploaded object; copy: the source object; uploadpart: the part; complete: unused
-	SrcKey     string `json:"src_key,omitempty"`
-	PartNo     int    `json:"part_no,omitempty"`
-	PartPre    bool   `json:"part_pre,omitempty"` // uploadpart: the part number was uploaded before (overwrite)
-	Parts      []string `json:"parts,omitempty"`  // complete: bodies of the parts uploaded in the pre-state
-	OtherKey   string `json:"other_key,omitempty"` // an unrelated object that must never change
-	KillAt     int    `json:"kill_at,omitempty"`   // replay: only this crash point (0 = all)
-	OracleOnly bool   `json:"oracle_only,omitempty"` // judge the implementation by the Spec oracle alone (no comparison with the model): for trying a changed backend
+	Op         string   `json:"op"` // put | delete | copy | uploadpart | complete | deleteversion
+	NoOTmp     bool     `json:"no_otmp"`
+	Sidecar    bool     `json:"sidecar"`
+	Versioning string   `json:"versioning"` // "" (no versioning dir) | "off" (dir configured, bucket unversioned) | "Enabled" | "Suspended"
+	Key        string   `json:"key"`
+	Pre        string   `json:"pre"` // absent | present | present2 (two generations: an archived version exists) | marker (delete marker is current)
+	Old        c11Obj   `json:"old"` // object at Key in the pre-state (Pre != absent)
+	New        c11Obj   `json:"new"` // put: the uploaded object; copy: the source object; uploadpart: the part; complete: unused
+	SrcKey     string   `json:"src_key,omitempty"`
+	PartNo     int      `json:"part_no,omitempty"`
+	PartPre    bool     `json:"part_pre,omitempty"`    // uploadpart: the part number was uploaded before (overwrite)
+	Parts      []string `json:"parts,omitempty"`       // complete: bodies of the parts uploaded in the pre-state
+	OtherKey   string   `json:"other_key,omitempty"`   // an unrelated object that must never change
+	KillAt     int      `json:"kill_at,omitempty"`     // replay: only this crash point (0 = all)
+	OracleOnly bool     `json:"oracle_only,omitempty"` // judge the implementation by the Spec oracle alone (no comparison with the model): for trying a changed backend
 }
 
 func (s c11Scn) cfgName() string {
@@ -84,8 +84,8 @@ const c11Bucket = "cbk"
 // Set to true together with applying docs/C11-fix-1.diff / docs/C11-fix-2.diff to /repo (and drop the
 // known findings they repair); the environment variables C11_FIX1 / C11_FIX2 override for trying a patched binary.
 const (
-	c11Fix1Applied = false
-	c11Fix2Applied = false
+	c11Fix1Applied = true
+	c11Fix2Applied = true
 )
 
 func c11Variant() string {
@@ -129,7 +129,7 @@ func (w *c11World) putObject(addr, key string, o c11Obj, extra ...gw.Header) gw.
 }
 
 type c11Setup struct {
-	UploadID string
+	UploadID  string
 	PartETags []string
 }
 
@@ -307,8 +307,8 @@ func c11Debug(a lib.Args, s c11Scn) error {
 
 type c11Obs struct {
 	Get, List, Ver, Up, Other string
-	Blocked                  string // "0" | "1" | "?" (not measured)
-	Incons                   []string
+	Blocked                   string // "0" | "1" | "?" (not measured)
+	Incons                    []string
 }
 
 func (o c11Obs) fields() []string { return []string{o.Get, o.List, o.Ver, o.Up, o.Other, o.Blocked} }
@@ -1124,11 +1124,11 @@ func c11Scenarios(a lib.Args) []c11Scn {
 	var out []c11Scn
 	// corpus: one configuration per request kind, plus the configurations of the known defect classes
 	out = append(out,
-		mk("put", flat, "absent", false, false, "", false),        // the clean case: must be atomic
-		mk("put", short, "present", false, false, "", true),       // overwrite + tags
-		mk("put", nested, "absent", true, false, "", false),       // named temp, new nested key
-		mk("delete", flat, "present", false, false, "", false),    // clean
-		mk("delete", nested, "present", false, false, "", false),  // parents pruned afterwards
+		mk("put", flat, "absent", false, false, "", false),       // the clean case: must be atomic
+		mk("put", short, "present", false, false, "", true),      // overwrite + tags
+		mk("put", nested, "absent", true, false, "", false),      // named temp, new nested key
+		mk("delete", flat, "present", false, false, "", false),   // clean
+		mk("delete", nested, "present", false, false, "", false), // parents pruned afterwards
 		mk("copy", short, "present", false, false, "", true),
 		mk("uploadpart", short, "absent", false, false, "", false),
 		mk("uploadpart", short, "present", true, false, "", false),
